@@ -8,6 +8,7 @@
 //!
 //! Property code lives in `src/bin/cNN.rs` so that editing one property rebuilds one binary.
 
+pub mod gen;
 pub mod run;
 pub mod sim;
 pub mod util;
